@@ -15,13 +15,22 @@ without positive body that define fresh atoms (`w :- not not t.`), then every st
 to the old atoms is a stable model of `P`; and if the added constraints hold exactly when every fresh atom has the value
 a function of the old atoms gives it (for telingo: the value of the formula it stands for — the statements above), the
 cut is a bijection: nothing is created, destroyed or duplicated.
-PARTIAL: the two hypotheses are about the implementation and are checked on it, not derived from a model of its clause
-generation: (H1) the recorded backend statements of every run with body formulas have exactly the three shapes
+For the clause groups the code really writes the two hypotheses are derived from the clause model (TelModel/Clauses.lean,
+tied to the code literal for literal by the clause correspondence): a Boolean connective, a temporal induction step and an
+equivalence are *clause definitions* (`bool_group_defines`, `tel_group_defines`, `eq_group_defines`), and every chain of
+clause definitions — each fresh atom new to the program and to the definitions before it, later ones free to use earlier
+ones, as the literals of sub-formulas are used by their super-formulas — is a conservative extension
+(`definition_chain_conservative`).
+PARTIAL: not derived from the model are the placeholders of `>` beyond the horizon (externals that are equated and freed
+in a later step — a statement about multi-shot solving); for those the hypotheses are checked on the implementation:
+(H1) the recorded backend statements of every run with body formulas have exactly the three shapes
 (tools/impl_theory.backend_shape), (H2) in every answer set the recorded literal values solve the equations (L4).
 -/
 import TelProofs.SemSys
 import TelProofs.DelUnique
 import TelProofs.Meta.DefExt
+import TelProofs.ClauseDefExt
+import TelProofs.ClauseChain
 
 namespace TelProofs.C13
 open TelSpec TelModel TelProofs
@@ -69,7 +78,54 @@ theorem observer_conservative {α : Type} [DecidableEq α] (P E : List (DefExt.R
     (∀ X X', DefExt.Stable (P ++ E) X → DefExt.Stable (P ++ E) X' → (∀ a, N a = false → X a = X' a) → ∀ a, X a = X' a) :=
   DefExt.conservative P E N hP hE (DefExt.det_of_function P E N hP hE val hval hsat hfree)
 
+/-- a worked instance with the clauses the code really writes: the literal of one Boolean connective over two program
+    atoms (`BooleanFormula.do_translate`: a choice on a fresh atom and the constraints of `boolClauses`) is a conservative
+    extension of any program that does not mention the fresh atom -/
+theorem bool_definition_conservative (P : List (DefExt.Rule Nat)) (op : String) (v a b : Nat)
+    (hv : 0 < v) (ha : 0 < a) (hb : 0 < b) (hva : v ≠ a) (hvb : v ≠ b)
+    (hop : op = "&" ∨ op = "|" ∨ op = "<-" ∨ op = "->" ∨ op = "<>")
+    (hP : ∀ r ∈ P, ∀ x ∈ r.atoms, (x == v) = false) :
+    (∀ X, DefExt.Stable (P ++ boolDefinition op v a b) X → DefExt.Stable P (DefExt.cut (fun n => n == v) X)) ∧
+    (∀ X0, DefExt.Stable P X0 → ∃ X, DefExt.Stable (P ++ boolDefinition op v a b) X ∧ (∀ x, (x == v) = false → X x = X0 x)) ∧
+    (∀ X X', DefExt.Stable (P ++ boolDefinition op v a b) X → DefExt.Stable (P ++ boolDefinition op v a b) X' →
+      (∀ x, (x == v) = false → X x = X' x) → ∀ x, X x = X' x) :=
+  TelProofs.bool_definition_conservative P op v a b hv ha hb hva hvb hop hP
+
 /-! ### non-vacuity (a concrete instance of the hypotheses is proved in TelProofs/Meta/DefExt.lean, `exP` / `exE`) -/
 example : isTel (.telN2 false (.atom "a" [] true) (.bin "&" (.prev (.atom "b" [] true) 2 true) (.neg (.const false)))) = true := rfl
+
+/-- **chains of Tseitin definitions are conservative**: for a ground program `P` and definitions `ds` (a choice on a
+    fresh atom plus integrity constraints that hold exactly when the atom has a value computed from the other atoms),
+    each fresh atom new to `P` and to the definitions before it: cutting to the old atoms maps the stable models of the
+    extended program onto the stable models of `P`, every stable model of `P` has an extension, and only one -/
+theorem definition_chain_conservative (P : List (DefExt.Rule Nat)) (ds : List ClauseDef)
+    (hwf : ∀ d ∈ ds, d.WF) (hP : ∀ d ∈ ds, ∀ r ∈ P, ∀ x ∈ r.atoms, (x == d.v) = false)
+    (hnew : ds.Pairwise ClauseDef.NewTo) :
+    let N := fun n => ds.any (fun d => n == d.v)
+    (∀ X, DefExt.Stable (P ++ chainRules ds) X → DefExt.Stable P (DefExt.cut N X)) ∧
+    (∀ X0, DefExt.Stable P X0 → ∃ X, DefExt.Stable (P ++ chainRules ds) X ∧ (∀ a, N a = false → X a = X0 a)) ∧
+    (∀ X X', DefExt.Stable (P ++ chainRules ds) X → DefExt.Stable (P ++ chainRules ds) X' →
+      (∀ a, N a = false → X a = X' a) → ∀ a, X a = X' a) :=
+  chain_conservative ds P hwf hP hnew
+
+/-- the clauses of `BooleanFormula.do_translate` define the literal of `a op b`, for arbitrary operand literals -/
+theorem bool_group_defines (op : String) (v : Nat) (a b : Int) (hv : 0 < v) (ha : a ≠ 0) (hb : b ≠ 0)
+    (hva : a.natAbs ≠ v) (hvb : b.natAbs ≠ v)
+    (hop : op = "&" ∨ op = "|" ∨ op = "<-" ∨ op = "->" ∨ op = "<>") : (boolDef op v a b).WF :=
+  boolDef_wf op v a b hv ha hb hva hvb hop
+
+/-- the clauses of `TelFormula._translate` define the literal of one induction step of since/trigger/until/release -/
+theorem tel_group_defines (dual : Bool) (v : Nat) (lhs : Option Int) (rhs pre : Int) (hv : 0 < v)
+    (hl : ∀ l, lhs = some l → l ≠ 0 ∧ l.natAbs ≠ v) (hr : rhs ≠ 0) (hp : pre ≠ 0)
+    (hvr : rhs.natAbs ≠ v) (hvp : pre.natAbs ≠ v) : (telDef dual v lhs rhs pre).WF :=
+  telDef_wf dual v lhs rhs pre hv hl hr hp hvr hvp
+
+/-- the clauses of `make_equal` define a (free) theory atom as equivalent to a literal -/
+theorem eq_group_defines (v : Nat) (b : Int) (hv : 0 < v) (hb : b ≠ 0) (hvb : b.natAbs ≠ v) : (eqDef v b).WF :=
+  eqDef_wf v b hv hb hvb
+
+/-- non-vacuity: `{a}.` with `v2 := a | not a`, `v3 := v2 & a`, theory atom `4 = v3` -/
+example : Conservative [{ head := [1], choice := true }] (chainRules exChain) (fun n => exChain.any (fun d => n == d.v)) :=
+  exChain_conservative
 
 end TelProofs.C13
